@@ -158,6 +158,9 @@ ASSUME KnownAnswers ==
 \* ---- GEN ---------------------------------------------------------------------------------------------------------
 EmitInv ==
     CASE mode = "orbit" -> PrintT(<<"GEN", ToJson([m |-> "xs16", seed |-> <<a>>])>>)
-      [] mode = "seeds" -> \A e \in WideEngines : \A sd \in SeedSet(e) : PrintT(<<"GEN", ToJson([m |-> e, seed |-> sd])>>)
+      [] mode = "seeds" -> /\ \A e \in WideEngines : \A sd \in SeedSet(e) : PrintT(<<"GEN", ToJson([m |-> e, seed |-> sd])>>)
+                           \* closed ranges [lo, lo + width] for uniform_int_distribution (precondition a <= b: width >= 0)
+                           /\ \A lo \in (-2)..2 : \A width \in 0..7 :
+                                 PrintT(<<"GEN", ToJson([m |-> "uid", a |-> lo, b |-> lo + width])>>)
       [] OTHER -> TRUE
 =============================================================================
